@@ -100,3 +100,92 @@ Proof.
   intros H. unfold norm_int. destruct (i <? 0) eqn:E; [|lia].
   replace ((0 <=? i + n) && (i + n <? n)) with true; [reflexivity|]. symmetry; apply andb_true_iff; lia.
 Qed.
+
+(* ---------- N-d items: None check, astropy's sanitize_slices (Ellipsis expansion, padding) ------ *)
+Definition is_none (it : item) : bool := match it with INone => true | _ => false end.
+Definition is_ellipsis (it : item) : bool := match it with IEllipsis => true | _ => false end.
+
+Fixpoint expand_at (fill : nat) (its : list item) : list item :=
+  match its with
+  | [] => []
+  | IEllipsis :: rest => repeat full_slice fill ++ rest
+  | x :: rest => x :: expand_at fill rest
+  end.
+
+Definition item_valid (it : item) : bool :=
+  match it with
+  | IInt _ => true
+  | ISlice _ _ None => true
+  | ISlice _ _ (Some s) => (s =? 1) || (s =? 0)      (* "if slc.step and slc.step != 1" *)
+  | _ => false
+  end.
+
+(* NDCubeSlicingMixin.__getitem__'s None check followed by sanitize_slices(item, nd) *)
+Definition strip_redundant_ellipsis (nd : nat) (raw : list item) : list item :=
+  if Nat.eqb (length raw) (S nd) && Nat.eqb (length (filter is_ellipsis raw)) 1
+  then filter (fun x => negb (is_ellipsis x)) raw else raw.
+
+Definition sanitize (nd : nat) (raw0 : list item) : result (list item) :=
+  if existsb is_none raw0 then Err EIndex
+  else let raw := strip_redundant_ellipsis nd raw0 in
+  if Nat.ltb nd (length raw) then Err EValue
+  else
+    let ne := length (filter is_ellipsis raw) in
+    if Nat.ltb 1 ne then Err EIndex
+    else
+      let its := if Nat.eqb ne 1 then expand_at (nd - (length raw - 1)) raw else raw in
+      if forallb item_valid its then Ok (its ++ repeat full_slice (nd - length its))
+      else Err EIndex.
+
+(* rank of axis a among the axes that survive (are not integer-indexed) *)
+Definition rank_kept (its : list item) (a : nat) : Z :=
+  zlen (filter (fun x => negb (is_int x)) (firstn a its)).
+
+(* numpy's selection on one axis of length n: (start, length, dropped) *)
+Definition np_axis_sel (n : Z) (it : item) : result (Z * Z * bool) :=
+  match it with
+  | IInt i => match norm_int n i with Some j => Ok (j, 1, true) | None => Err EIndex end
+  | ISlice a b None | ISlice a b (Some 1) => let '(s, l) := sel1 n a b in Ok (s, l, false)
+  | ISlice _ _ (Some _) => Err EValue
+  | _ => Err EIndex
+  end.
+
+Fixpoint map2r {A B C} (f : A -> B -> result C) (l1 : list A) (l2 : list B) : result (list C) :=
+  match l1, l2 with
+  | [], [] => Ok []
+  | x :: xs, y :: ys =>
+      match f x y with
+      | Err e => Err e
+      | Ok c => match map2r f xs ys with Ok cs => Ok (c :: cs) | Err e => Err e end
+      end
+  | _, _ => Err EOther
+  end.
+
+Definition sels_shape (sels : list (Z * Z * bool)) : list Z :=
+  map (fun '(_, l, _) => l) (filter (fun '(_, _, d) => negb d) sels).
+
+Lemma expand_at_length fill its : length (filter is_ellipsis its) = 1%nat ->
+  length (expand_at fill its) = (length its - 1 + fill)%nat.
+Proof.
+  induction its as [|x xs IH]; cbn [filter length expand_at]; [discriminate|].
+  destruct x; cbn [is_ellipsis length]; intros H;
+    try (rewrite IH by assumption; destruct xs; [cbn in H; discriminate | cbn [length]; lia]).
+  rewrite app_length, repeat_length. lia.
+Qed.
+
+Lemma sanitize_length nd raw its : sanitize nd raw = Ok its -> length its = nd.
+Proof.
+  unfold sanitize. destruct (existsb is_none raw); [discriminate|].
+  generalize (strip_redundant_ellipsis nd raw). clear raw. intros raw. cbv zeta.
+  destruct (Nat.ltb nd (length raw)) eqn:E1; [discriminate|]. apply Nat.ltb_ge in E1.
+  destruct (Nat.ltb 1 (length (filter is_ellipsis raw))) eqn:E2; [discriminate|].
+  destruct (Nat.eqb (length (filter is_ellipsis raw)) 1) eqn:E3.
+  - apply Nat.eqb_eq in E3.
+    destruct (forallb item_valid _); [|discriminate]. intros H; inversion H; subst; clear H.
+    rewrite app_length, repeat_length, expand_at_length by assumption.
+    assert (1 <= length raw)%nat.
+    { destruct raw; [cbn in E3; discriminate | cbn [length]; lia]. }
+    lia.
+  - destruct (forallb item_valid raw); [|discriminate]. intros H; inversion H; subst; clear H.
+    rewrite app_length, repeat_length. lia.
+Qed.
